@@ -520,17 +520,24 @@ func (p *bytePay) Clone() Payload {
 // that offset after range checks, and hence that the VM's pc after the
 // jump equals the code length at patch time.
 func checkJumpArith(c *Ctx, r *Report, rule string) {
-	r.rule(rule, 4, "emitJump returns the operand offset; patchJump stores count()-offset-jumpByteLength there, after rejecting negative and >65535 distances; the VM adds the operand after reading it: the landing pc is the code length at the patch")
+	r.rule(rule, 4, "emitJump, at code length c0, emits one opcode and jumpByteLength placeholder bytes and returns a reference (an offset, or a small struct of offsets); patchJump, given that reference when the code length is c1, stores at c0+1 — the placeholder — a distance d with (c0+1) + jumpByteLength + d = c1, after rejecting d < 0 and d > 65535: the VM, which adds the operand after reading it, lands at the code length at the patch")
 	jumpLen, _ := pkgConstInt(c.Bcl, "jumpByteLength")
 	var h Hooks
 	pay := func(st *State) *bytePay { return st.P.(*bytePay) }
 	h.SameEffect = func(a, b *State) bool {
 		return pay(a).count.equal(pay(b).count) && len(pay(a).patches) == len(pay(b).patches)
 	}
-	h.Inline = func(fn *types.Func) bool { return false }
+	h.Inline = func(fn *types.Func) bool {
+		// small helpers of the module (an offset computed by a method of Prog) are read through
+		return fn.Pkg() != nil && fn.Pkg().Path() == bclPath
+	}
 	h.Call = func(in *Interp, st *State, call *ast.CallExpr, callee types.Object, args []Value) ([]valState, bool) {
 		p := pay(st)
 		switch qname(callee) {
+		case "len":
+			if len(call.Args) == 1 && strings.HasSuffix(c.fieldPath(call.Args[0]), ".code") {
+				return one(st, linV(p.count)), true
+			}
 		case "parser.emitOp":
 			p.count = p.count.add(linConst(1))
 			p.ops++
@@ -604,21 +611,22 @@ func checkJumpArith(c *Ctx, r *Report, rule string) {
 		r.bad(rule, "parser.emitJump", "function not found", "")
 		return
 	}
-	st := &State{Env: map[types.Object]Value{}, P: &bytePay{count: linSym("count")}}
+	st := &State{Env: map[types.Object]Value{}, P: &bytePay{count: linSym("c0")}}
 	res := in.inlineBody(st, ej.Type, ej.Body, ej.Recv, []Value{unknownV()})
 	okEJ := len(res) == 1
 	detail := ""
+	ref := unknownV()
 	if okEJ {
 		p := pay(res[0].st)
-		ret, isL := res[0].v.asLin()
-		want := linSym("count").add(linConst(1))
-		end := linSym("count").add(linConst(1 + jumpLen))
-		okEJ = isL && ret.equal(want) && p.count.equal(end) && p.ops == 1 && len(p.problems) == 0
-		detail = fmt.Sprintf("returns %v, code grows to %s (expected return %s, growth to %s, one opcode)", res[0].v, p.count, want, end)
+		ref = res[0].v
+		end := linSym("c0").add(linConst(1 + jumpLen))
+		known := ref.K == vLin || ref.K == vStruct
+		okEJ = known && p.count.equal(end) && p.ops == 1 && len(p.problems) == 0
+		detail = fmt.Sprintf("returns %v, code grows to %s (expected a reference made of offsets, growth to %s, one opcode)", ref, p.count, end)
 	} else {
 		detail = fmt.Sprintf("%d paths", len(res))
 	}
-	r.check(okEJ, rule, "parser.emitJump", "emits one opcode and jumpByteLength placeholder bytes; returns the offset of the first placeholder byte", "emitJump: "+detail, c.pos(ej.Pos()))
+	r.check(okEJ, rule, "parser.emitJump", "emits one opcode and jumpByteLength placeholder bytes; returns a reference made of code offsets: "+ref.String(), "emitJump: "+detail, c.pos(ej.Pos()))
 
 	// patchJump
 	_, pj := c.find("parser.patchJump")
@@ -626,8 +634,10 @@ func checkJumpArith(c *Ctx, r *Report, rule string) {
 		r.bad(rule, "parser.patchJump", "function not found", "")
 		return
 	}
-	st = &State{Env: map[types.Object]Value{}, P: &bytePay{count: linSym("count")}}
-	res = in.inlineBody(st, pj.Type, pj.Body, pj.Recv, []Value{linV(linSym("offset"))})
+	// patchJump is given what emitJump returned, at a later code length c1
+	st = &State{Env: map[types.Object]Value{}, P: &bytePay{count: linSym("c1")}}
+	res = in.inlineBody(st, pj.Type, pj.Body, pj.Recv, []Value{ref})
+	placeholder := linSym("c0").add(linConst(1))
 	nPatch := 0
 	okArith, okLo, okHi := true, true, true
 	why := ""
@@ -640,9 +650,9 @@ func checkJumpArith(c *Ctx, r *Report, rule string) {
 			nPatch++
 			// landing pc = at + width + val must be the code length now
 			land := pt.At.add(linConst(jumpLen)).add(pt.Val)
-			if !pt.At.equal(linSym("offset")) || !land.equal(p.count) {
+			if !pt.At.equal(placeholder) || !land.equal(p.count) {
 				okArith = false
-				why = fmt.Sprintf("stores %s at %s: the VM would land at %s, the code length at the patch is %s", pt.Val, pt.At, land, p.count)
+				why = fmt.Sprintf("stores %s at %s (the placeholder is at %s): the VM would land at %s, the code length at the patch is %s", pt.Val, pt.At, placeholder, land, p.count)
 			}
 			lo, hi := false, false
 			for _, g := range p.guards {
@@ -657,7 +667,7 @@ func checkJumpArith(c *Ctx, r *Report, rule string) {
 			okLo = okLo && lo
 			okHi = okHi && hi
 		}
-		if !p.count.equal(linSym("count")) {
+		if !p.count.equal(linSym("c1")) {
 			okArith, why = false, "patchJump changes the code length"
 		}
 	}
